@@ -4,16 +4,54 @@ sys.path.insert(0, os.path.dirname(__file__))
 from _common import main
 import vbs_common as V
 
-BOUND = 'every sequence of 1..3 finalisations from {close, context-manager exit} x VbsWriter/IpmWriter x blocked/unblocked x BytesIO/real temp file x 5 record sets (empty, small, >1012 bytes, ending on a block edge, many)'
+BOUND = 'one file object re-used for 4 files in a row with fresh writers, and with-blocks entered on a finalised writer; every sequence of 1..3 finalisations from {close, context-manager exit} x VbsWriter/IpmWriter x blocked/unblocked x BytesIO/real temp file x 5 record sets (empty, small, >1012 bytes, ending on a block edge, many)'
+
+
+def reuse(inp):
+    """one file object used for file after file (truncate + rewind), a fresh writer each time; and a writer entered again
+    after it was finalised: every file must come out complete and must stay as its first finalisation left it"""
+    import io
+    from cardutil.mciipm import VbsWriter, VbsReader
+    blocked = inp['blocked']
+    f = io.BytesIO()
+    for rnd, lens in enumerate(inp['files']):
+        f.seek(0)
+        f.truncate(0)
+        recs = [V.rec_bytes(n, rnd + i) for i, n in enumerate(lens)]
+        w = VbsWriter(f, blocked=blocked)
+        for r in recs:
+            w.write(r)
+        for h in inp['hows']:
+            if h == 'close':
+                w.close()
+            elif h == 'exit':
+                w.__exit__(None, None, None)
+            else:                       # 'with': enter and leave a with-block on the same writer
+                with w:
+                    pass
+        data = f.getvalue()
+        want = V.ref_frame(recs)
+        if blocked:
+            want = V.ref_block(want)
+        if data != want:
+            back, end, _ = V.read_all(VbsReader(io.BytesIO(data), blocked=blocked))
+            return 'reuse: file %d written through a re-used file object / re-entered writer (finalised by %s, blocked=%s) is not the finalised form (reads back %d of %d records, %s)' % (
+                rnd + 1, inp['hows'], blocked, len(back), len(recs), end)
+    return None
 
 
 def oracle(inp):
+    if inp.get('kind') == 'reuse':
+        return reuse(inp)
     if inp.get('kind') == 'hist':
         return V.oracle_close(inp['lens'], inp['blocked'], inp['hows'], inp['cls'], inp['real'])
     return V.generic_oracle(inp)
 
 
 def cases(tier, rng):
+    for blocked in (False, True):
+        for hows in (['close'], ['exit'], ['with'], ['close', 'with'], ['with', 'with'], ['with', 'close'], ['exit', 'with', 'close'], ['close', 'exit', 'with']):
+            yield {'kind': 'reuse', 'blocked': blocked, 'hows': hows, 'files': [[5, 300], [1500], [7], []]}
     for n in (1, 2, 3):
         for hows in itertools.product(['close', 'exit'], repeat=n):
             for cls in ('VbsWriter', 'IpmWriter'):
